@@ -39,6 +39,8 @@ def cli_vectors(ctx, gate_topa):
     files = {"in.sam": {"kind": "pipe-sam", "N": 24}, "ref.fa": {"kind": "pipe-ref"}, "m.fa": {"kind": "pipe-msa", "N": 24},
              "m.fasta": {"kind": "pipe-msa", "N": 24}, "ref.fasta": {"kind": "pipe-ref"}, "a.gb": {"kind": "pipe-gb"},
              "tie.fa": {"text": tie_msa()}, "same.gff": {"text": samestart_gff()}, "syn.fa": {"text": syn_msa()},
+             # a second record under the reference's name, with mutations of its own (the writers pass over every record of that name)
+             "namesake.fa": {"text": fasta([("ref", REF), ("q0", mutate(REF, 0, 7)), ("q1", mutate(REF, 1, 8)), ("ref", mutate(REF, 2, 9)), ("q2", mutate(REF, 0, 7))])},
              "one.fa": {"text": fasta([("ref", REF), ("q0", mutate(REF, 0, 7)), ("q1", mutate(REF, 1, 8))])},
              "pq.fasta": {"text": fasta([("q0", mutate(mutate(REF, 0, 5), 0, 9))])},
              # 20 'up' targets at distance 1 and 20 at distance 2, interleaved: ties on (distance, ambiguity) in one direction
@@ -141,6 +143,12 @@ def cli_vectors(ctx, gate_topa):
     add("variants-stdin-reader-finished-first", piped, base=piped + ["--msa", "@one.fa"], r=max(reps, 12), sig="variants-stdin-small",
         env={"VHOOK_GATE": "variants.Variants.first:99,0", "VHOOK_GATE_MS": "300"})
     vecs[-1]["stdin"] = "@one.fa"
+    for extra in ([], ["--aggregate"]):
+        nsk = ["variants", "--msa", "@namesake.fa", "--reference", "ref", "-a", "@a.gb"] + extra
+        add("variants-reference-namesake" + "".join(extra), nsk + ["-t", "4"], base=nsk + ["-t", "1"], r=max(reps, 6), sig="variants-reference-namesake")
+        for order in ("3,0,1,2,4", "4,3,2,1,0", "1,3,0,2,4"):
+            add("variants-reference-namesake%s/gate-%s" % ("".join(extra), order.replace(",", "")), nsk + ["-t", "3"], base=nsk + ["-t", "1"], r=1,
+                env={"VHOOK_GATE": "variants.getVariants:" + order, "VHOOK_GATE_MS": "2000"}, sig="variants-reference-namesake")
     add("snps-aggregate", ["snps", "-r", "@ref.fa", "-q", "@m.fa", "--aggregate"], r=reps)
     per = ["variants", "--msa", "@one.fa", "--reference", "ref", "-a", "@same.gff"]
     add("variants-gff-same-start", per + ["-t", "2"], base=per + ["-t", "1"], r=max(reps, 10), sig="variants-gff-same-start")
@@ -203,6 +211,14 @@ def run(ctx):
     for rep in range(2 if quick else 8):
         vecs.append({"id": "toprank-jit-%d" % rep, "fam": "pipe", "sig": "toprank", "cmd": "toprankgate", "N": 40, "T": 1,
                      "mode": "jitter", "jseed": ctx.seed * 77 + rep})
+    # one record delivered after more than a thousand later ones (a writer that parks early arrivals in anything but an
+    # unbounded map has a size at which it must grow or stall)
+    late = 1301
+    for cmd in ["udlist", "snps", "variants", "toma"]:
+        for k in ([5] if quick else [0, 5, 700]):
+            order = [i for i in range(late) if i != k] + [k]
+            vecs.append({"id": "late-%s-%d-of-%d" % (cmd, k, late), "fam": "pipe", "sig": cmd, "cmd": cmd, "N": late, "T": 4, "mode": "gate",
+                         "order": order})
     # the fan-out commands: the per-query goroutines report to Main in every order (3 queries: all 6; thorough also 4: all 24)
     import itertools
     for cmd in pipetrace.FANOUT:
